@@ -19,6 +19,7 @@ import (
 	"sort"
 	"strings"
 	"sync"
+	"sync/atomic"
 	"time"
 
 	"github.com/gorilla/websocket"
@@ -40,7 +41,8 @@ type c13Case struct {
 	ShimPath string      `json:"shim_path,omitempty"`
 	Status   int         `json:"status,omitempty"`
 	Seed     int64       `json:"seed,omitempty"`
-	Info     bool        `json:"info,omitempty"` // routing of this path is library-defined: observed, not judged
+	Redirect string      `json:"redirect,omitempty"` // url: "<status>;<kind>" - the backend answers the handshake with this redirect
+	Info     bool        `json:"info,omitempty"`     // routing of this path is library-defined: observed, not judged
 }
 
 type c13Result struct {
@@ -51,7 +53,8 @@ type c13Result struct {
 	Want       []string `json:"want,omitempty"`
 	ParseErr   bool     `json:"parse_err"`
 	Connected  bool     `json:"connected"`
-	Reached    bool     `json:"reached"` // nonshim: the wrapped handler saw the request
+	Redirects  int      `json:"redirects"` // handshakes the backend answered with a redirect during this case
+	Reached    bool     `json:"reached"`   // nonshim: the wrapped handler saw the request
 	Violations []string `json:"violations,omitempty"`
 	Note       string   `json:"note,omitempty"`
 }
@@ -200,6 +203,10 @@ func c13URL(c c13Case, h http.Handler, dials *c13Dials, b *shimBackend) c13Resul
 	body, _ := base64.StdEncoding.DecodeString(c.B64)
 	dials.take()
 	hdr := [][2]string{{"X-Verif-Conn", c.ID}, {"X-Websocket-Shim-Version", "1"}}
+	if c.Redirect != "" {
+		hdr = append(hdr, [2]string{"X-Verif-Redirect", c.Redirect})
+	}
+	redirBefore := atomic.LoadInt64(&b.redirects)
 	req, err := shimParse(shimRaw("POST", "/shim/open", c.Host, hdr, body))
 	if err != nil {
 		res.Note = "harness could not build the request: " + err.Error()
@@ -216,6 +223,12 @@ func c13URL(c c13Case, h http.Handler, dials *c13Dials, b *shimBackend) c13Resul
 	}
 	show := shimTrunc(fmt.Sprintf("%q", body), 200) + " [corpus class " + c.Class + "]"
 	form := c13Form(string(body))
+	res.Redirects = int(atomic.LoadInt64(&b.redirects) - redirBefore)
+	if c.Redirect != "" {
+		kind := c.Redirect[strings.Index(c.Redirect, ";")+1:]
+		form = "redirect-" + kind
+		show += fmt.Sprintf(" whose handshake the backend answered with redirect %s (%d redirect answers served)", c.Redirect, res.Redirects)
+	}
 	if a.Panic != "" {
 		res.Violations = append(res.Violations, fmt.Sprintf("C13:panic:%s|open with body %s panicked: %s", shimSlug(a.Panic), show, a.Panic))
 	} else if !a.Answered {
@@ -235,7 +248,7 @@ func c13URL(c c13Case, h http.Handler, dials *c13Dials, b *shimBackend) c13Resul
 		if bc := b.conn(c.ID); bc != nil {
 			res.Connected = true
 			res.URI = bc.uri
-			ok := false
+			ok := c.Redirect != "" // where a followed same-backend redirect ends up is the backend's choice
 			for _, w := range want {
 				if w == bc.uri {
 					ok = true
